@@ -44,7 +44,8 @@ class MonArr:
     shape/dtype/class inspection would be a value dependence (or a concretisation error).
     """
 
-    log = None  # class-level list, set by harness
+    log = None  # class-level list, set by harness: value-dependent operations
+    probes = []  # attribute probes (not judged)
 
     def __init__(self, shape, dtype="float32"):
         object.__setattr__(self, "_shape", tuple(shape))
@@ -57,7 +58,8 @@ class MonArr:
             return object.__getattribute__(self, "_dtype")
         if name in ("__class__", "__dict__", "_shape", "_dtype"):
             return object.__getattribute__(self, name)
-        MonArr.log.append(name)
+        # an attribute *probe* is not a value access (a tracer answers those too): kept apart
+        MonArr.probes.append(name)
         raise AttributeError(name)
 
     def _rec(name):  # noqa
@@ -70,7 +72,8 @@ class MonArr:
     for _n in ("__bool__", "__len__", "__iter__", "__getitem__", "__index__", "__int__",
                "__float__", "__complex__", "__array__", "__lt__", "__le__", "__gt__", "__ge__",
                "__add__", "__radd__", "__mul__", "__rmul__", "__sub__", "__neg__",
-               "__contains__", "__abs__", "__format__", "__str__"):
+               "__contains__", "__abs__", "__rsub__", "__truediv__", "__mod__", "__pow__", "__and__", "__or__",
+               "__invert__", "__hash_value__"):
         locals()[_n] = _rec(_n)
     del _n, _rec
 
